@@ -41,9 +41,8 @@ class FileInfo:
 
 def make_files(ctx, tmp, variants=None):
     files = []
-    rng = random.Random(f'C10-files:{ctx.seed}')
     for v in (variants or synth.VARIANTS):
-        data, lumps, game, info = synth.build(v, rng)
+        data, lumps, game, info = synth.build(v, random.Random(f'C10-files:{ctx.seed}:{v.name}'))
         p = pathlib.Path(tmp) / f'{v.name}.bsp'
         p.write_bytes(data)
         files.append(FileInfo(v.name, p, v, info))
@@ -466,14 +465,10 @@ def _file_for(inp, tmp, ctx):
         if v is None:
             return None
         seed = inp.get('seed', ctx.seed)
-        rng = random.Random(f'C10-files:{seed}')
-        f = None
-        for vv in synth.VARIANTS:       # same rng consumption order as make_files
-            data, lumps, game, info = synth.build(vv, rng)
-            if vv.name == v.name:
-                p = pathlib.Path(tmp) / f'{vv.name}.bsp'
-                p.write_bytes(data)
-                f = FileInfo(vv.name, p, vv, info)
+        data, lumps, game, info = synth.build(v, random.Random(f'C10-files:{seed}:{v.name}'))
+        p = pathlib.Path(tmp) / f'{v.name}.bsp'
+        p.write_bytes(data)
+        f = FileInfo(v.name, p, v, info)
         return f
     if SAMPLE.exists():
         p = pathlib.Path(tmp) / 'sample_rot_main.bsp'
@@ -505,6 +500,8 @@ def replay(ctx, payload):
 
 
 def replay_known(ctx, finding):
+    """Does the open finding still reproduce?  Keys `spice:<name>`: any failure of the property on that
+    out-of-domain file; other keys: that exact failure kind."""
     tmp = tempfile.mkdtemp(prefix='c10k_')
     try:
         T = static_tables_fallback()
@@ -513,6 +510,8 @@ def replay_known(ctx, finding):
             prepare(ctx, f, T, tmp)
         seq = [T['idx'][n] for n in finding['witness']['seq']]
         _, problems, _ = impl_case(f, seq, T, tmp, tag='k')
+        if finding['key'].startswith('spice:'):
+            return bool(problems)
         return any(k == finding['key'] for k, _ in problems)
     finally:
         shutil.rmtree(tmp, ignore_errors=True)
